@@ -390,6 +390,20 @@ def directed():
                 yield mk_case([4], "int64", vals_, op, 1, "pow2")
                 yield mk_case([1, 3], "uint64", vals_, op, 1, "pow2")
                 yield mk_case([2, 0, 2], "int64", [v - 2 ** (k_ - 1) for v in vals_], op, 1, "pow2")
+    # (number of rows) x (value range) next to the capacity of a 64-bit / 32-bit word -- from just below to just above 2**63, 2**64, 2**31, 2**32 divided by
+    # the number of rows -- with the largest value in the last row and the smallest in the first (a combined row-and-value key must still hold it)
+    for n_ in (3, 5, 6, 7, 10, 11, 12, 100):
+        for cap_, dtype in ((2 ** 63, "int64"), (2 ** 64, "uint64"), (2 ** 31, "int32"), (2 ** 32, "uint32"), (2 ** 63, "uint64"), (2 ** 32, "int64")):
+            for d_ in (-2, 0, 1, 3, 64, 100, 1025):
+                top = cap_ // n_ + d_
+                if top > np.iinfo(dtype).max:
+                    continue
+                lens_ = [2] + [1] * (n_ - 2) + [3]
+                vals_ = [0, 5] + [7 + i for i in range(n_ - 2)] + [3, top, top - 1]
+                for op in ("sort", "unique_counts"):
+                    yield mk_case(lens_, dtype, vals_, op, 1, "pow2")
+                if np.iinfo(dtype).min < 0 and d_ in (0, 1, 100):
+                    yield mk_case(lens_, dtype, [v - top // 2 for v in vals_], "sort", 1, "pow2")
     # long rows (thousands of cells per row on average) of narrow integer types over their whole value range
     for dtype, lens_ in (("int8", [5000, 3000, 0, 4000]), ("uint8", [3000, 3001]), ("int16", [5000, 0, 7000]), ("bool", [4000, 100]), ("int16", [300000, 280000])):
         ii_ = None if dtype == "bool" else np.iinfo(dtype)
